@@ -239,7 +239,7 @@ func runC01(c *Ctx) {
 	// shared with C12: a copy of a document loaded from a directory is reported under that document's own labels only if
 	// the labels do not depend on how the directory was spelled (R12.2)
 	if c.R.Filter == nil {
-		borrowRules(c, []string{"R12.2"}, runC12)
+		borrowRules(c, []string{"R12.2", "R12.8", "R12.14"}, runC12)
 		// shared with C08: a copy that reaches into the last Read of a reader is found whole only if the bytes delivered
 		// together with the end of the input are counted (R08.3); shared with C03: a copy of a document is reported only
 		// if the document's key has the three components the reporting code takes apart (R03.6)
@@ -2435,6 +2435,25 @@ func checkNoticePatternsUnconditional(c *Ctx, p *core.Prog) {
 			c.R.Check(dom, "R06.6", core.ShortFn(fn)+": the notice patterns are consulted before any token of the line is produced", p.Pos(lit.alloc.Pos()),
 				"the range over ignorableTexts dominates the token loop", "a path reaches the token loop without consulting the notice patterns (a pre-test stands in for them): a notice line the pre-test does not anticipate is tokenised as text")
 		}
+		// ... or the tokens are produced by a helper this function calls: the call stands behind the patterns
+		for _, call := range core.CallsIn(fn) {
+			h := call.Common().StaticCallee()
+			if h == nil || h == fn || core.FuncPkgPath(h) != v2pkg || len(h.Blocks) == 0 || direct[h] {
+				continue
+			}
+			if len(structLits([]*ssa.Function{h}, "/v2.indexedToken")) == 0 {
+				continue
+			}
+			n++
+			dom := false
+			for _, st := range sites {
+				if st.Block().Dominates(call.Block()) {
+					dom = true
+				}
+			}
+			c.R.Check(dom, "R06.6", core.ShortFn(fn)+": the notice patterns are consulted before any token of the line is produced", p.Pos(call.Pos()),
+				"the range over ignorableTexts dominates the call that produces the tokens", "a path reaches the production of the tokens without consulting the notice patterns (a pre-test stands in for them): a notice line the pre-test does not anticipate is tokenised as text")
+		}
 	}
 	c.R.RequireMin("R06.6", "token literals behind the notice patterns", n, 1)
 	// R05.9: whether a line is a notice is decided by its text: no test of a pattern stands behind a condition on one of the
@@ -2470,6 +2489,13 @@ func checkNoticePatternsUnconditional(c *Ctx, p *core.Prog) {
 						if v == ssa.Value(ip) {
 							return true
 						}
+					}
+					// the condition is computed from the parameter by arithmetic and comparisons (not: a string that was
+					// built by a helper that was also handed the position)
+					switch v.(type) {
+					case *ssa.BinOp, *ssa.UnOp, *ssa.Phi, *ssa.Convert:
+					default:
+						return false
 					}
 					if vi, ok := v.(ssa.Instruction); ok {
 						for _, op := range vi.Operands(nil) {
@@ -4695,6 +4721,24 @@ func checkNormalizeEOLGuard(c *Ctx, p *core.Prog, nz *ssa.Function) {
 			}
 			if s, isS := core.ConstString(cmp.Y); (cmp.X == ssa.Value(w) && (isEOL(cmp.Y) || (isS && s == "\n"))) || (cmp.Y == ssa.Value(w) && isEOL(cmp.X)) {
 				guarded = true
+			}
+		}
+		// the test can also stand in the helper that writes, on the parameter the word is handed in
+		if !guarded && ws.top != ssa.Instruction(ws.leaf) {
+			if prm, isPrm := ws.leaf.Common().Args[1].(*ssa.Parameter); isPrm {
+				for _, f := range core.FactsAtInstr(ws.leaf) {
+					cmp, ok := f.AsCmp()
+					if !ok || cmp.Op != token.NEQ {
+						continue
+					}
+					isEOL := func(v ssa.Value) bool {
+						u, ok := v.(*ssa.UnOp)
+						return ok && u.Op == token.MUL && u.X == ssa.Value(eolG)
+					}
+					if s, isS := core.ConstString(cmp.Y); (cmp.X == ssa.Value(prm) && (isEOL(cmp.Y) || (isS && s == "\n"))) || (cmp.Y == ssa.Value(prm) && isEOL(cmp.X)) {
+						guarded = true
+					}
+				}
 			}
 		}
 		c.R.Check(guarded, "R11.5", "Normalize: a word is written out only after it was tested not to be the end-of-line token", p.Pos(ws.top.Pos()),
